@@ -1110,6 +1110,12 @@ def plan(prop, tier, seed, known):
         for i in range(n):
             jobs.append(seq_job("limits%d" % i, seed * 100 + i, "limits", 3 if q else 8, 150 if q else 300, av, disk=40000, dumpeach=30))
         jobs.append(probe_job(prop, av))
+        # the announced limits must also be usable through the repository's XDR/RPC path (bounds in the decoders)
+        for i in range(1 if q else 6):
+            jobs.append(seq_job("limitsrpc%d" % i, seed * 100 + 40 + i, "limits", 3 if q else 8, 150 if q else 300, av, disk=40000, dumpeach=30, extra=["-transport"]))
+        j = probe_job(prop, av)
+        j["name"], j["driver"] = "probes-rpc-" + prop, j["driver"] + ["-transport"]
+        jobs.append(j)
     elif prop in ("C17", "C18"):
         cmd, mod = ("simple", "SimpleTrace") if prop == "C17" else ("kvs", "KvsTrace")
         for i in range(4 if q else 24):
